@@ -67,7 +67,8 @@ def plan(tier, seed):
 
 def minimums(tier):
     return {"hlog.calls_checked": 5000, "hlog.field_lines_checked": 20000, "fields.calls_checked": 5000,
-            "workload.single_byte_probes": 2000, "workload.lengths": 3000}
+            "workload.single_byte_probes": 2000, "workload.lengths": 3000,
+            "plugin.hlog_checked": 100}
 
 
 def drive(ctx, hlog, rng, path, fields, tag):
@@ -86,7 +87,10 @@ def drive(ctx, hlog, rng, path, fields, tag):
         ctx.current = {"fields": fields[:50], "data": d[:300], "table": tag}
         ctx.case(tag + d.hex(), len(d) >= 1 and len(fields) >= 1,
                  sample={"fields": fields[:3], "data_hex": d[:24].hex()} if len(d) == 7 else None)
-        hlog.parse_hlog_data(memoryview(d) if rng.random() < 0.5 else d, path)
+        try:
+            hlog.parse_hlog_data(memoryview(d) if rng.random() < 0.5 else d, path)
+        except Exception as e:
+            ctx.violation("C16/decoder-raised/" + type(e).__name__, "parse_hlog_data raised %r" % (e,), data=d[:300], fields=fields[:60])
 
 
 def run(spec, ctx):
@@ -114,3 +118,30 @@ def run(spec, ctx):
     TABLES[os.path.abspath(path)] = fields
     for _ in range(spec["reps"]):
         drive(ctx, hlog, rng, path, fields, spec["which"])
+        # the same decoder reached through the I/O-drawer plugin (sub-type 72): every byte of the section counts
+        import json
+        import udparsers.m2c00.m2c00 as m2c00
+        ver = 1 if spec["which"] == "mex" else 2
+        rl = iogen.record_len(fields)
+        for n in list(range(1, rl + 6)) + [rl] * 10:
+            d = bytes(rng.randrange(256) for _ in range(n))
+            k = rng.random()
+            if k < 0.4:
+                d = d[:max(0, n - rng.randrange(1, 4))] + b"\0" * min(n, 3)       # trailing zero bytes are data, not padding
+                d = d[-n:] if len(d) > n else d
+            elif k < 0.5:
+                d = bytes(n)
+            ctx.current = {"plugin_path": True, "version": ver, "data": d}
+            ctx.case("m2c00" + spec["which"] + d.hex(), True)
+            ctx.count("plugin.hlog_checked")
+            try:
+                got = json.loads(m2c00.parseUDToJson(72, ver, memoryview(d)))
+            except Exception as e:
+                ctx.violation("C16/plugin-raised", "m2c00.parseUDToJson(72, %d, ...) raised %r" % (ver, e), data=d)
+                continue
+            want = im.hlog_ref(d, fields)
+            if got.get("History Log") != want:
+                g = got.get("History Log") or []
+                j = next((i for i in range(min(len(g), len(want))) if g[i] != want[i]), min(len(g), len(want)))
+                ctx.violation("C16/plugin-path", "history log of %d bytes through the I/O-drawer plugin: line %d shown %r, the model "
+                              "says %r" % (len(d), j, g[j] if j < len(g) else None, want[j] if j < len(want) else None), data=d)
